@@ -1,6 +1,5 @@
 use std::fmt::Display;
 
-use easy_cast::ConvApprox;
 use ec_core::{
     distributions::{choices::ChoicesDistribution, collection},
     genome::Genome,
@@ -72,15 +71,17 @@ where
     /// Create a generator where the close tag has the same likelihood of
     /// being chosen as any of the passed in instructions.
     pub fn with_uniform_close_probability(instructions_distribution: T) -> Self {
-        Self::new(
-            1.0 / f32::conv_approx(
-                instructions_distribution
-                    .num_choices()
-                    .get()
-                    .saturating_add(1),
-            ),
-            instructions_distribution,
-        )
+        #[expect(
+            clippy::as_conversions,
+            clippy::cast_precision_loss,
+            reason = "An approximate probability is all we need here; `conv_approx` panics in debug \
+                      builds when the number of choices is not exactly representable as an `f32`"
+        )]
+        let num_options = instructions_distribution
+            .num_choices()
+            .get()
+            .saturating_add(1) as f32;
+        Self::new(1.0 / num_options, instructions_distribution)
     }
 }
 
